@@ -468,7 +468,8 @@ type childSpec struct {
 	Target  string      `json:"target"`
 	Writes  []writeSpec `json:"writes"`
 	CrashAt int         `json:"crash_at"` // 0: never
-	Observe bool        `json:"observe"`  // look at the target at every hook hit, and run the polling reader
+	Observe bool        `json:"observe"`  // look at the target at every hook hit
+	Poll    bool        `json:"poll"`     // run the polling reader while the Writes run
 	// PriorDone: some Write of the history returned nil before this process
 	// started (the target must never be absent again).
 	PriorDone bool   `json:"prior_done"`
@@ -629,7 +630,7 @@ func childMain(specPath string) {
 	}
 	var stop atomic.Bool
 	readerDone := make(chan *readerRep, 1)
-	if spec.Observe {
+	if spec.Poll {
 		go pollingReader(spec.Target, &started, &done, &stop, readerDone)
 	}
 	for i, w := range spec.Writes {
@@ -654,7 +655,7 @@ func childMain(specPath string) {
 		}
 	}
 	dir.VerifHook.Store(nil)
-	if spec.Observe {
+	if spec.Poll {
 		stop.Store(true)
 		rep.Reader = <-readerDone
 	}
@@ -750,9 +751,7 @@ func runChild(wd string, spec childSpec) (rep childReport, code int, stderr stri
 	var eb bytes.Buffer
 	cmd.Stderr = &eb
 	cmd.Stdout = nil
-	t0 := time.Now()
 	runErr := cmd.Run()
-	rec.Count("us.cmdrun", int(time.Since(t0).Microseconds()))
 	rec.Progress()
 	rec.Count("processes.spawned", 1)
 	stderr = eb.String()
@@ -1091,7 +1090,7 @@ func (c *caseRun) run() {
 	seq := hist{writes: c.p.Writes}
 	wd := filepath.Join(c.root, fmt.Sprintf("c%d-n0", c.idx))
 	target := filepath.Join(wd, "svid")
-	rep, code, stderr, err := runChild(wd, childSpec{Target: target, Writes: c.p.Writes, Observe: true})
+	rep, code, stderr, err := runChild(wd, childSpec{Target: target, Writes: c.p.Writes, Observe: true, Poll: true})
 	cleanup(wd)
 	if err != nil || code != 0 || !rep.Done {
 		rec.Inconclusive(c.idx, "crash-free child did not finish", map[string]any{"exit": code, "err": fmt.Sprint(err), "stderr": stderr})
@@ -1210,7 +1209,7 @@ func (c *caseRun) crashPoint(n int, hit hitRec) {
 
 	// ---- recovery by a fresh Dir in a fresh process, watched at every hook hit
 	rh := hist{prior: c.p.Writes[:k+1], completed: k >= 1, writes: append([]writeSpec{c.p.Rec1}, c.p.More...)}
-	rrep, code, stderr, err := runChild(wd, childSpec{Target: target, Writes: rh.writes, Observe: true, PriorDone: rh.completed})
+	rrep, code, stderr, err := runChild(wd, childSpec{Target: target, Writes: rh.writes, Observe: true, Poll: k == len(c.p.Writes)-1, PriorDone: rh.completed})
 	if err != nil || code != 0 || !rrep.Done {
 		rec.Inconclusive(c.idx, "recovery child did not finish", map[string]any{"n": n, "exit": code, "err": fmt.Sprint(err), "stderr": stderr})
 		return
@@ -1310,7 +1309,7 @@ func TestCheck(t *testing.T) {
 	}
 	rec = mon.Open("C18")
 	defer rec.Close()
-	rec.Note("rule", "A case index is one sequence of 1-4 Writes by one Dir (file sets: empty, single file, three files, three files overlapping the names of the others with different contents, one 1 MiB file; quick: all 5 sequences of length 1, all 25 of length 2, 10 seeded ones of length 3-4; thorough: all 780 kind sequences of length 1-4 plus 1220 seeded sequences of random sets incl. zero-length files). A child process runs the sequence crash-free and looks at the target at every hook hit (H hits), while a goroutine of that child polls the target in a tight loop (a concurrent reader; only views whose link is unchanged across the read are judged); then for EVERY n in 1..H a fresh child runs the sequence and dies (os.Exit in the hook) at hit n = one evaluation; the parent looks at the target, a fresh process with a fresh Dir performs 1-3 further Writes (watched at every hook hit), and for every n that lies in the LAST Write of the sequence (a crash in an earlier Write is the same history as a crash in the last Write of a shorter sequence) the first of those recovery Writes is itself crashed at EVERY one of its hits j (state restored from a snapshot) and recovered by yet another fresh Dir = one evaluation per (n, j). Oracle at every look: target absent (only while no Write of the history has returned nil) or resolving to a directory whose names and contents equal exactly one complete Write argument of the history so far; after every Write that returns nil the target shows exactly its set; every recovery Write returns nil; crash-free: exactly one version directory in the base directory after each Write. distinct key = (names and sizes of the sequence, n[, recovery set, j]); non-trivial = the crash point is not the very first hook of a Write (something of the interrupted Write is already on disk) or it is a second-level crash.")
+	rec.Note("rule", "A case index is one sequence of 1-4 Writes by one Dir (file sets: empty, single file, three files, three files overlapping the names of the others with different contents, one 1 MiB file; quick: all 5 sequences of length 1, all 25 of length 2, 10 seeded ones of length 3-4; thorough: all 780 kind sequences of length 1-4 plus 1220 seeded sequences of random sets incl. zero-length files). A child process runs the sequence crash-free and looks at the target at every hook hit (H hits), while a goroutine of that child polls the target in a tight loop (a concurrent reader; only views whose link is unchanged across the read are judged; also in the recovery children of crash points in the last Write); then for EVERY n in 1..H a fresh child runs the sequence and dies (os.Exit in the hook) at hit n = one evaluation; the parent looks at the target, a fresh process with a fresh Dir performs 1-3 further Writes (watched at every hook hit), and for every n that lies in the LAST Write of the sequence (a crash in an earlier Write is the same history as a crash in the last Write of a shorter sequence) the first of those recovery Writes is itself crashed at EVERY one of its hits j (state restored from a snapshot) and recovered by yet another fresh Dir = one evaluation per (n, j). Oracle at every look: target absent (only while no Write of the history has returned nil) or resolving to a directory whose names and contents equal exactly one complete Write argument of the history so far; after every Write that returns nil the target shows exactly its set; every recovery Write returns nil; crash-free: exactly one version directory in the base directory after each Write. distinct key = (names and sizes of the sequence, n[, recovery set, j]); non-trivial = the crash point is not the very first hook of a Write (something of the interrupted Write is already on disk) or it is a second-level crash.")
 	req := []string{"observe.hits", "reader.stable-views-complete", "reader-recovery.stable-views-complete", "recovery.ok", "second-recovery.ok", "nocrash.exactly-one-version-dir", "crash.state.absent-before-first-write", "crash.state.earlier-set", "crash.state.new-set"}
 	for _, p := range allPoints {
 		req = append(req, "crashpoint."+p, "observe.point."+p)
